@@ -663,7 +663,7 @@ def reservation_monitor(ctx, worlds, results, stream="M-c10r"):
 
 
 def run(ctx):
-    built, worlds, results = common_prelude(ctx, ctx.pid.split("_")[0] + "_ilp", 60, 1200, extra_reserve=12)
+    built, worlds, results = common_prelude(ctx, ctx.pid.split("_")[0] + "_ilp", 50, 1200, extra_reserve=12)
     reservation_monitor(ctx, worlds, results)
     replay_corpus(ctx, "C10_ilp", "ILP-H1", lambda w, r: "error" in r,
                   "schedule() raises for a SCHEDULED task with a strategy that does not fit on some worker "
